@@ -12,3 +12,5 @@ INVARIANT StaleBlind
 INVARIANT RefuteStaleSize
 INVARIANT RefuteAccumulate
 INVARIANT RefuteKeepSingle
+INVARIANT IdentityBlind
+INVARIANT RefuteIdentity
